@@ -40,6 +40,10 @@ if __name__ == "__main__":
     tier = sys.argv[5] if len(sys.argv) > 5 else "quick"
     install.install()
     from checks import mod_c04  # registers the C04 observational profile
+    if os.environ.get("SURVEY_OPTS"):
+        extra = json.loads(os.environ["SURVEY_OPTS"])
+        for spec in gprops.G_PROPS.values():
+            spec["opts"].update(extra)
     jobs = []
     for seed in range(seed0, seed0 + nseeds):
         for pid in sorted(gprops.G_PROPS):
